@@ -1547,6 +1547,7 @@ request_parse(u8 *packet, int length, struct evdns_server_port *port,
 		j += 2 /* type */ + 2 /* class */ + 4 /* ttl */; \
 		GET16(rdlen); \
 		j += rdlen; \
+		if (j > length) goto err; \
 	} while (0)
 
 	for (i = 0; i < answers; ++i) {
@@ -1566,7 +1567,11 @@ request_parse(u8 *packet, int length, struct evdns_server_port *port,
 		GET16(rdlen);
 		(void)ttl;
 		j += rdlen;
-		if (type == TYPE_OPT) {
+		if (j > length)
+			goto err;
+		/* Only the first OPT counts, but the records after it must
+		 * still be there. */
+		if (type == TYPE_OPT && !server_req->n_additional) {
 			/* In case of OPT pseudo-RR `class` field is treated
 			 * as a requestor's UDP payload size. */
 			server_req->max_udp_reply_size = MAX(class, DNS_MAX_UDP_SIZE);
@@ -1580,7 +1585,6 @@ request_parse(u8 *packet, int length, struct evdns_server_port *port,
 				0, /* is_name */
 				NULL /* data */
 			);
-			break;
 		}
 	}
 
@@ -1602,6 +1606,7 @@ err:
 				mm_free(server_req->base.questions[i]);
 			mm_free(server_req->base.questions);
 		}
+		server_request_free_answers(server_req);
 		mm_free(server_req);
 	}
 	return -1;
